@@ -21,13 +21,19 @@ EXPLANATION = (
     "Value identities of the mean algebra (domain M, mdomain.py): every mean is normalised to a linear combination of matrix words over the symbols "
     "{A, gain, diagonal scalings, base vectors}; apply_flat / marginalise / revert-observed means equal P_out (A (P_in x) + b), the backward conditional of revert "
     "evaluated at the observed mean returns the prior mean (the gain cancels), merge(c2, c).apply = c2.apply o c.apply, and preconditioner_apply preserves the map -- "
-    "in all three factorisations (the block-diagonal one per block)."
+    "in all three factorisations (the block-diagonal one per block).  "
+    "Value identities of the covariance algebra (domain G, gdomain.py): the Gram matrix F F^T of every returned factor is evaluated in the same word algebra "
+    "(transposes, |P| = P for positive scalings, sum_of_sqrtm_factors((R1, R2)) as a right factor with R^T R = R1^T R1 + R2^T R2, the (y, y) block of the reversal kernel) and equals "
+    "the dense formula: P_o (A P_i S P_i A^T + Q) P_o for apply / marginalise / the observed part of revert, A_o T Q_i T A_o^T + Q_o for merge, P_o Q P_o and P_o A P_i after preconditioner removal.  "
+    "The reversal kernel (revert_conditional) is interpreted with an uninterpreted solve: observed factor and gain come from the blocks of the triangularised joint factor, every model hands the "
+    "caller's solve to it, and the backward noise factor is R_XY (exact solves) or carries the residual of a least-squares gain."
 )
 LEVEL = "other"
-TECHNIQUE = "units-of-measure and symbolic shape type inference over the abstract interpreter's terms (segmented axes for block matrices, typed vmap / einsum / QR / triangular solves); affine matrix-word normal form (free algebra with diagonal scalings) for value identities of the means"
+TECHNIQUE = "units-of-measure and symbolic shape type inference over the abstract interpreter's terms (segmented axes for block matrices, typed vmap / einsum / QR / triangular solves); affine matrix-word normal form (free algebra with diagonal scalings and transposes) for value identities of means and of Gram matrices of covariance factors"
 LEVEL_TEXT = (
     "One type derivation per method replaces the whole range of scalings and shapes; a dropped or misplaced scaling (as in the isotropic apply_flat defect, fixed in 494f97b) is a ground unit mismatch. "
-    "The means are decided by value (symbolic identities valid for every input); for the covariance factors only units/shapes are decided: exactness for singular covariances, conditioning and rounding are not claimed."
+    "Means and covariances are decided by value (symbolic identities valid for every input); the backward conditional's noise of a reversal (a Schur complement) is decided structurally only (R-C08-5), "
+    "conditioning and rounding are not claimed."
 )
 LEVEL_NOTE = (
     "Trusted base = the primitive signatures of adomain.py (qr_r needs a unit-uniform row axis and returns (white, column-units); triangular solves; matmul/einsum contraction; "
